@@ -96,21 +96,21 @@ PENDING_REASON = "check not yet built in this snapshot of /verif (planned, see D
 # dimensions added while the seeded changes of DESIGN.md 9.2 were turned into generated dimensions (appended to the level text)
 EXTRA = {
     'C01': "host names of digits / labels around 63 octets, lists printed through ExtendValues with a method context, Unicode blanks at the edges of header values, display names and reason phrases",
-    'C02': "27+ mutation kinds incl. grammar-built SIP URI forms in every placement, long non-ASCII malformed values, messages claiming the branch of a live transaction; delivery inside dialogs over datagram and connection under 7 application policies with the peer ACKing or not; driven UAC sessions (uac_session_life); a deterministic spin guard (task polls per virtual instant) for 'never loops forever'",
-    'C03': "Content-Length value spellings (zero padding to 34 digits, folds), absent Content-Length, UTF-8 heads with cuts inside a character, heads of ~1000 lines, pipelines of several maximum-size messages, three drivers (FramedRead::new, read-ahead, the Decoder contract directly)",
-    'C04': "requests no layer takes, request-line method != CSeq method, advertised Via overrides, responses decorated with received/rport, arrival by another source / transport, responses arriving while an application write is pending, floods and mid-life copies",
+    'C02': "27+ mutation kinds incl. grammar-built SIP URI forms in every placement, long non-ASCII malformed values, messages claiming the branch of a live transaction; delivery inside dialogs over datagram and connection under 7 application policies with the peer ACKing or not; driven UAC sessions (uac_session_life); a deterministic spin guard (task polls per virtual instant) for 'never loops forever'; inputs sent again around every timer edge over a transport whose send takes time",
+    'C03': "Content-Length value spellings (zero padding to 34 digits, folds), absent Content-Length, UTF-8 heads with cuts inside a character, heads of ~1000 lines, pipelines of several maximum-size messages, three drivers (FramedRead::new, read-ahead, the Decoder contract directly), heads at exactly the limit behind keep-alive runs, and real connections (accept / receive task) whose application drops or keeps requests between segments",
+    'C04': "requests no layer takes, request-line method != CSeq method, advertised Via overrides, responses decorated with received/rport, arrival by another source / transport, responses arriving while an application write is pending, floods and mid-life copies, response writes that fail",
     'C05': "pacing sub-checks (pending sends, delayed first receive() also after 64*T1, think times), Via overrides, response bursts up to 129 between two polls, a second transport handle",
     'C06': "transient send faults, source selectors for later messages, Via shapes (rport / maddr / NAT), cookie-less branches, in-dialog requests, background load up to 600 (2048 thorough) other requests",
     'C07': "echoed header changes, ACK send faults, caller pace (first receive() up to 70 s, think times), response bursts, a second transport handle",
-    'C08': "cookie-less branches with reactively built ACKs, 1-3 Via values, ACK copies, session backlog behind a busy application, late / abandoned PRACKs, send-fault plans and send latency in the acceptor world",
+    'C08': "cookie-less branches with reactively built ACKs, 1-3 Via values, ACK copies, session backlog behind a busy application, late / abandoned PRACKs, send-fault plans and send latency in the acceptor world, peer retransmissions with refused re-sends, up to 200 requests behind a CSeq gap",
     'C09': "several sockets owned by the endpoint, everything sent after the first transmission (retransmissions, timer G, TU retransmit), connections that take writes in pieces, responses with bodies",
     'C10': "guard drops inside Usage::receive, failed default answers, re-INVITEs never ACKed, holds of up to 1 h",
-    'C11': "rejected INVITE attempts before the dialog, forks, failed sends of requests ezk creates itself, 1xx-vs-2xx Contact / Record-Route relations, related Record-Route neighbours, PRACKs in an early dialog",
-    'C12': "reliable transports, other source ports, send-fault plans, send latency with a drifting-schedule oracle, use of the established session after a late CANCEL, several reliable provisionals in a row",
-    'C13': "application polling schedules for the Initiator and for Early objects, six To-tag spelling families, reliable transport, going on after an error, several INVITEs through one Initiator",
-    'C14': "URI text read by five readers in every spelling, follow-up transmissions (retransmissions, ACKs), route sets and decoy URIs, send faults with pin histories, transport= / maddr= uri-parameters under ignored/honoured readings",
+    'C11': "rejected INVITE attempts before the dialog, forks, failed sends of requests ezk creates itself, 1xx-vs-2xx Contact / Record-Route relations, related Record-Route neighbours, PRACKs in an early dialog, sip/sips combinations of target and Contact, chosen first sequence numbers (2^8 .. 2^31 edges)",
+    'C12': "reliable transports, other source ports, send-fault plans, send latency with a drifting-schedule oracle, use of the established session after a late CANCEL, several reliable provisionals in a row, RFC 2543 peers, session-timer headers on the INVITE",
+    'C13': "application polling schedules for the Initiator and for Early objects, six To-tag spelling families, reliable transport, going on after an error, several INVITEs through one Initiator, responses arriving while the INVITE send is pending",
+    'C14': "URI text read by five readers in every spelling, follow-up transmissions (retransmissions, ACKs), route sets and decoy URIs, send faults with pin histories, transport= / maddr= uri-parameters under ignored/honoured readings, wildcard / loopback / IPv4-mapped bound addresses",
     'C15': "pick-up and release sharing an instant with traffic, registry probes, re-selection in the instant of the last release, fragments in the decoder buffer, an application layer busy with a request",
-    'C16': "connection address families and uses, peer lifetime headers, abandoned-INVITE floods, objects dropped by panicking application tasks, application-run dialogs with backlog, one helper OS thread contending for the dialog layer lock",
+    'C16': "connection address families and uses, peer lifetime headers, abandoned-INVITE floods, objects dropped by panicking application tasks, application-run dialogs with backlog, one helper OS thread contending for the dialog layer lock, peer tag spellings and forks on later messages of a call",
     'C17': "registrar 200 shapes (own / foreign bindings), un-REGISTER and rejected rounds, late ACKs of ezk's 2xx to a received refresh",
     'C18': "server-side nonce memory with repeated failures, credential store changes between challenges, targets with embedded URI headers, requests really sent by an Endpoint and read back from the wire",
     'C19': "Unicode white space and invisible characters in tokens, near-misses and other-form spellings of every well-known token, literal-looking host names, repeated list elements",
